@@ -170,7 +170,7 @@ type shared struct {
 	cliCheck map[string]map[string]any
 }
 
-var propC04 bool
+var propC04, propC07 bool
 
 func runItem(w *hx.Worker, sh *shared, it genfam.Item, onlyInput *string) {
 	rt, err := lexer.New(it.Def.ToRules())
@@ -219,7 +219,7 @@ func runItem(w *hx.Worker, sh *shared, it genfam.Item, onlyInput *string) {
 		ins = []string{*onlyInput}
 	}
 	// several live lexers of ONE generated definition, advanced alternately, must not disturb each other
-	if !propC04 && onlyInput == nil && (it.Family == "stack" || it.Family == "include" || it.Family == "names") {
+	if !propC04 && !propC07 && onlyInput == nil && (it.Family == "stack" || it.Family == "include" || it.Family == "names") {
 		// inputs that drive the lexer at least two states deep, up to 3 per distinct deepest stack, at most 36
 		// in all: every ordered pair of them is advanced alternately
 		var picks []string
@@ -259,6 +259,25 @@ func runItem(w *hx.Worker, sh *shared, it genfam.Item, onlyInput *string) {
 				}
 			}
 		}
+	}
+	if propC07 {
+		// C07 on generated lexers: every Next returns, no panic, non-empty tokens, at most len(input) tokens,
+		// EOF is sticky, calls after an error return (a hang is caught by the supervisor watchdog)
+		for _, in := range ins {
+			w.Case(func() string { return key(it, in) })
+			w.Count("evaluations", 1)
+			r := lexdrive.Drive(gen, "f.txt", in, 3)
+			if r.Panicked != "" {
+				w.Violate(hx.Violation{Key: "generated " + key(it, in), Class: "panic", Detail: map[string]any{"panic": r.Panicked}})
+			} else if r.Extra != "" {
+				w.Violate(hx.Violation{Key: "generated " + key(it, in), Class: "progress", Detail: map[string]any{"what": r.Extra}})
+			}
+			w.DistinctS(fmt.Sprintf("%d/%v/%v", len(r.Toks), r.Err != nil, r.EOF != nil))
+			if len(in) >= 3 && r.Err == nil {
+				w.Sample(map[string]any{"generated_lexer_for": it.Def.String(), "input": in, "tokens": len(r.Toks)})
+			}
+		}
+		return
 	}
 	if propC04 {
 		// C04 on generated lexers: positions and losslessness of every successful lex, from the input text alone
@@ -459,6 +478,7 @@ func load() *shared {
 
 func plan(c *hx.Ctx) *hx.Plan {
 	propC04 = c.Prop == "C04"
+	propC07 = c.Prop == "C07"
 	items := genfam.Items(c.Quick())
 	sh := load()
 	fam := map[string]int{}
@@ -477,6 +497,7 @@ func plan(c *hx.Ctx) *hx.Plan {
 
 func replay(c *hx.Ctx, k string) []hx.Violation {
 	propC04 = c.Prop == "C04"
+	propC07 = c.Prop == "C07"
 	k = strings.TrimPrefix(k, "generated ")
 	parts := strings.Split(k, " :: ")
 	w := hx.NewReplayWorker()
@@ -500,5 +521,5 @@ func replay(c *hx.Ctx, k string) []hx.Violation {
 }
 
 func main() {
-	hx.Main(&hx.Spec{Engine: "genx", JobTimeout: 60 * time.Second, Levels: map[string]string{"C05": "model_checking", "C04": "exploration"}, Plan: plan, Replay: replay})
+	hx.Main(&hx.Spec{Engine: "genx", JobTimeout: 60 * time.Second, Levels: map[string]string{"C05": "model_checking", "C04": "exploration", "C07": "exploration"}, Plan: plan, Replay: replay})
 }
